@@ -221,7 +221,8 @@ func (c *converter) ProgramEnd() error {
 	if c.stringSubscriptHelperRequired {
 		c.addHelper("string subscript", stringSubscriptHelper,
 			`set /A "_sh=(%2-%1)+1"`,
-			fmt.Sprintf(`set "_sub=!%s:~%%1,%%_sh%%!"`, funcArgVar(0)), // https://stackoverflow.com/a/636391
+			`set "_sub="`, // The substring expansion of an empty (undefined) variable yields the literal "~a,n".
+			fmt.Sprintf(`if defined %s set "_sub=!%s:~%%1,%%_sh%%!"`, funcArgVar(0), funcArgVar(0)), // https://stackoverflow.com/a/636391
 		)
 	}
 
